@@ -6,7 +6,7 @@ one (ocaml/lib_wire.ml)."""
 import os, re, subprocess, random
 
 VERIF = os.path.dirname(os.path.dirname(os.path.abspath(__file__)))
-COQ = os.path.join(VERIF, "coq")
+COQ = os.environ.get("VERIF_COQ") or os.path.join(VERIF, "coq")
 
 
 def n(tok):
